@@ -161,16 +161,18 @@ def pslq(ctx, x, tol=None, maxcoeff=1000, maxsteps=100, verbose=False):
     # use 1-based indexing. (This just allows us to be consistent with
     # Bailey's indexing. The algorithm is 100 lines long, so debugging
     # a single wrong index can be painful.)
-    x = [None] + [ctx.to_fixed(ctx.mpf(xk), prec) for xk in x]
+    # (A relation is invariant under scaling of x, the fixed-point format
+    # is not: the largest entry is brought to [1/2, 1).)
+    x = [ctx.mpf(xk) for xk in x]
+    scale = [ctx.mag(xk) for xk in x if xk and ctx.isfinite(xk)]
+    if scale:
+        x = [ctx.ldexp(xk, -max(scale)) for xk in x]
+    x = [None] + [ctx.to_fixed(xk, prec) for xk in x]
 
     # Sanity check on magnitudes
     minx = min(abs(xx) for xx in x[1:])
     if not minx:
         raise ValueError("PSLQ requires a vector of nonzero numbers")
-    if minx < tol//100:
-        if verbose:
-            print("STOPPING: (one number is too small)")
-        return None
 
     g = sqrt_fixed((4<<prec)//3, prec)
     A = {}
@@ -189,7 +191,12 @@ def pslq(ctx, x, tol=None, maxcoeff=1000, maxsteps=100, verbose=False):
         for j in xrange(k, n+1):
             t += (x[j]**2 >> prec)
         s[k] = sqrt_fixed(t, prec)
-    t = s[1]
+    t = xnorm = s[1]
+    # (relative to the norm, as the success test below)
+    if (minx << prec) // xnorm < tol//100:
+        if verbose:
+            print("STOPPING: (one number is too small)")
+        return None
     y = x[:]
     for k in xrange(1, n+1):
         y[k] = (x[k] << prec) // t
